@@ -89,7 +89,7 @@ Lemma merge_pos d par j par' n1 k rest j0 :
 Proof.
   intros Sh M E1 V Lr Nr.
   destruct (merge_children_spec maxCap Hpos d par j par' Sh M) as [Sh' Fl'].
-  pose proof Sh as (H1 & H2 & L & F). unfold merge_children in M.
+  pose proof Sh as (H1 & H2 & L & F & Cpx). unfold merge_children in M.
   replace (S j - 1) with j in M by lia. rewrite E1 in M.
   destruct (nth_error (n_children par) (S j)) as [n2|] eqn:E2; [|discriminate].
   destruct (nth_error (n_items par) j) as [sep|] eqn:Es; [|discriminate].
@@ -261,7 +261,7 @@ Proof.
   induction fuel; intros d r np sp j0 Sh V Ls; cbn [collapse]; [exists d; cbn [fst snd]; auto|].
   destruct ((n_count r =? 0) && negb (is_leaf r)) eqn:E; [|exists d; cbn [fst snd]; auto].
   apply andb_true_iff in E. destruct E as [E1 E2]. apply Nat.eqb_eq in E1. apply negb_true_iff in E2.
-  destruct (shape_internal _ _ _ Sh E2) as [d' ->]. pose proof Sh as (_ & _ & L & F).
+  destruct (shape_internal _ _ _ Sh E2) as [d' ->]. pose proof Sh as (_ & _ & L & F & Cpx).
   destruct (n_children r) as [|ch cs] eqn:Ec; [simpl in L; lia|].
   assert (cs = []) by (destruct cs; simpl in L; [reflexivity | lia]). subst cs.
   inversion F; subst.
